@@ -60,10 +60,10 @@ def run(ctx):
     sf = env.load_selfies()
     hooks.attach_m1()
     hooks.attach_m2(table_fn=sf.get_semantic_constraints)
-    hooks.attach_m3()
+    hooks.attach_m3(use_icontract=True)   # the derivation contracts as icontract post-conditions
     rng = ctx.rng
     quick = ctx.tier == "quick"
-    ntab = 60 if quick else 1500
+    ntab = 200 if quick else 2500
     for ti in range(ntab):
         t = tablegen.any_table(rng) if rng.random() < 0.6 else tablegen.random_table(rng)
         flagged = rng.random() < 0.08
